@@ -52,4 +52,27 @@ def paramListed (exprSyms ivSyms : List String) (p : String) : Bool :=
 def paramListedPrefix (exprSyms _ivSyms : List String) (p : String) : Bool :=
   exprSyms.contains p
 
+/-! ### what the parameter filter of `_analysis` reads of a solver dictionary (used by Generated/PyParams.lean) -/
+
+/-- per key of the dictionary: is it present, and for every entry the names of the atoms of its expression -/
+structure SolverView where
+  hasUpdate : Bool
+  hasProp : Bool
+  hasIv : Bool
+  update : List (String × List String)
+  prop : List (String × List String)
+  iv : List (String × List String)
+
+/-- `solver_json["parameters"][param_name] = ...` on the list of per-solver parameter lists (the current solver is the last) -/
+def appendLast : List (List String) → String → List (List String)
+  | [], p => [[p]]
+  | [l], p => [l ++ [p]]
+  | l :: rest, p => l :: appendLast rest p
+
+/-- all atom names the filter can see in a solver: update expressions and propagators / initial values -/
+def SolverView.exprSyms (v : SolverView) : List String :=
+  (if v.hasUpdate then v.update.flatMap (·.2) else []) ++ (if v.hasProp then v.prop.flatMap (·.2) else [])
+
+def SolverView.ivSyms (v : SolverView) : List String := if v.hasIv then v.iv.flatMap (·.2) else []
+
 end OdeVerif.SolverDict
